@@ -18,6 +18,12 @@ Proof.
   - destruct j; reflexivity.
   - apply IH.
 Qed.
+Lemma skipn_add {A} : forall b a (l : list A), skipn a (skipn b l) = skipn (b + a) l.
+Proof.
+  induction b as [|b IH]; intros a l; [reflexivity|]. destruct l as [|x l]; cbn.
+  - destruct a; reflexivity.
+  - apply IH.
+Qed.
 Lemma slice_length {A} (a b : nat) (s : list A) :
   (b <= length s)%nat -> length (slice a b s) = (b - a)%nat.
 Proof. intro H. unfold slice. rewrite firstn_length, skipn_length. lia. Qed.
@@ -243,6 +249,21 @@ Proof.
   unfold tabularize. destruct (rectangular p); [|discriminate]. intro H. injection H as <-.
   apply Forall2_map_in. intros. apply tab_row_spec.
 Qed.
+Lemma Forall2_impl {A B} (R R' : A -> B -> Prop) l l' :
+  (forall a b, R a b -> R' a b) -> Forall2 R l l' -> Forall2 R' l l'.
+Proof. intros H HF. induction HF; constructor; auto. Qed.
+
+Lemma tabularize_column_then_time p rows : tabularize p = Ok rows ->
+  Forall2 (fun i r =>
+    length r = col_offset i (length i) /\
+    (forall c, (c < length i)%nat -> col_offset i (S c) = (col_offset i c + length (nth c i []))%nat) /\
+    forall c t, (c < length i)%nat -> (t < length (nth c i []))%nat ->
+      nth (col_offset i c + t) r 0 = nth t (nth c i []) 0) p rows.
+Proof.
+  intro H. eapply Forall2_impl; [|apply tabularize_spec; exact H].
+  intros i r [Hl Hn]. split; [exact Hl|]. split; [intros c Hc; apply col_offset_S; exact Hc|exact Hn].
+Qed.
+
 Lemma col_concat_spec p out : col_concat p = Ok out ->
   Forall2 (fun i o => exists r, o = [r] /\ tab_row_ok i r) p out.
 Proof.
@@ -252,6 +273,9 @@ Qed.
 
 (* ---------- PAA on panels ---------- *)
 
+Lemma Forall2_len {A B} (R : A -> B -> Prop) l1 l2 : Forall2 R l1 l2 -> length l1 = length l2.
+Proof. induction 1; cbn; congruence. Qed.
+
 Lemma paa_panel_spec m p out : (1 <= m <= min_len p)%nat -> paa_apply m p = Ok out ->
   cellwise (fun s o => Forall2 Qeq o (paa_spec m s) /\ length o = m) p out.
 Proof.
@@ -260,7 +284,7 @@ Proof.
   intro H. injection H as <-. apply cellwise_map. intros i s Hi Hs.
   pose proof (min_len_le p i s Hi Hs) as Hl.
   assert (HF : Forall2 Qeq (paa_coded m s) (paa_spec m s)) by (apply paa_coded_is_frame_mean; lia).
-  split; [exact HF|]. apply Forall2_length in HF. rewrite HF. unfold paa_spec.
+  split; [exact HF|]. apply Forall2_len in HF. rewrite HF. unfold paa_spec.
   rewrite map_length, seq_length. reflexivity.
 Qed.
 
@@ -282,27 +306,30 @@ Proof.
   rewrite IH by (rewrite Qn_S; lra). rewrite ov_after by exact Hb. lra.
 Qed.
 
+Lemma Qn_mult a b : Qn (a * b) == Qn a * Qn b.
+Proof. unfold Qn. rewrite Nat2Z.inj_mul, inject_Z_mult. reflexivity. Qed.
+Lemma Qn_pos m : (1 <= m)%nat -> 0 < Qn m.
+Proof. intro H. pose proof (Qn_lt 0 m H) as H1. change (Qn 0) with 0 in H1. lra. Qed.
+
 Lemma paa_divisible_block_mean (q m k : nat) (s : series) :
   (1 <= q)%nat -> (1 <= m)%nat -> length s = (m * q)%nat -> (k < m)%nat ->
   paa_frame m s k == qmean (slice (k * q) (k * q + q) s).
 Proof.
   intros Hq Hm Hlen Hk. unfold paa_frame, step_integral, paa_len. rewrite Hlen.
   assert (HL : Qn (m * q) / Qn m == Qn q).
-  { unfold Qn. rewrite Nat2Z.inj_mul, inject_Z_mult. field.
-    pose proof (Qn_lt 0 m Hm) as H. unfold Qn in H. cbn in H. lra. }
+  { rewrite Qn_mult. field. pose proof (Qn_pos m Hm). lra. }
   assert (Hs : s = firstn (k * q) s ++ slice (k * q) (k * q + q) s ++ skipn (k * q + q) s).
   { unfold slice. replace (k * q + q - k * q)%nat with q by lia.
     rewrite <- (firstn_skipn (k * q) s) at 1. f_equal.
     rewrite <- (firstn_skipn q (skipn (k * q) s)) at 1. f_equal.
-    rewrite skipn_skipn. f_equal. lia. }
+    rewrite skipn_add. reflexivity. }
   assert (Hkq : (k * q + q <= m * q)%nat) by nia.
   assert (Hl1 : length (firstn (k * q) s) = (k * q)%nat) by (rewrite firstn_length; lia).
   assert (Hl2 : length (slice (k * q) (k * q + q) s) = q) by (rewrite slice_length; lia).
   assert (Ha : Qn k * (Qn (m * q) / Qn m) == Qn (k * q)).
-  { rewrite HL. unfold Qn. rewrite Nat2Z.inj_mul, inject_Z_mult. reflexivity. }
+  { rewrite HL. rewrite Qn_mult. reflexivity. }
   assert (Hb : (Qn k + 1) * (Qn (m * q) / Qn m) == Qn (k * q + q)).
-  { rewrite HL. rewrite Qn_plus. unfold Qn at 3. rewrite Nat2Z.inj_mul, inject_Z_mult.
-    fold (Qn k) (Qn q). ring. }
+  { rewrite HL. rewrite Qn_plus, Qn_mult. ring. }
   unfold qmean. rewrite Hl2.
   apply Qdiv_comp; [|exact HL].
   rewrite Hs at 1. rewrite !wsum_app. rewrite Hl1, Hl2. cbn [plus].
@@ -323,13 +350,17 @@ Fixpoint tiles (start : nat) (bs : list (nat * nat)) (stop : nat) : Prop :=
 Lemma chunks_from_tiles : forall sizes start,
   tiles start (chunks_from start sizes) (start + list_sum sizes).
 Proof.
-  induction sizes as [|z t IH]; intro start; cbn [chunks_from tiles list_sum fold_right].
-  - lia.
+  induction sizes as [|z t IH]; intro start; cbn [chunks_from tiles].
+  - cbn. lia.
   - split; [reflexivity|]. split; [lia|].
+    change (list_sum (z :: t)) with (z + list_sum t)%nat.
     replace (start + (z + list_sum t))%nat with (start + z + list_sum t)%nat by lia. apply IH.
 Qed.
 Lemma list_sum_repeat a k : list_sum (repeat a k) = (k * a)%nat.
-Proof. induction k as [|k IH]; cbn; [reflexivity|]. rewrite IH. lia. Qed.
+Proof.
+  induction k as [|k IH]; [reflexivity|]. cbn [repeat].
+  change (list_sum (a :: repeat a k)) with (a + list_sum (repeat a k))%nat. rewrite IH. lia.
+Qed.
 Lemma split_sizes_sum n k : (0 < k)%nat -> list_sum (split_sizes n k) = n.
 Proof.
   intro Hk. unfold split_sizes. rewrite list_sum_app, !list_sum_repeat.
@@ -360,7 +391,7 @@ Proof.
   - subst a. rewrite skipn_all. reflexivity.
   - destruct H as (-> & Hab & Ht). cbn [fst snd]. fold (segment t s). rewrite (IH b s Ht).
     unfold slice. replace (skipn b s) with (skipn (b - a) (skipn a s))
-      by (rewrite skipn_skipn; f_equal; lia).
+      by (rewrite skipn_add; f_equal; lia).
     apply firstn_skipn.
 Qed.
 
@@ -388,8 +419,8 @@ Proof.
   - apply chunks_from_sizes in H. unfold split_sizes in H. apply in_app_or in H.
     destruct H as [H|H]; apply repeat_spec in H; [right|left]; lia.
   - pose proof (chunks_from_tiles (split_sizes n k) 0) as H.
-    rewrite split_sizes_sum in H by lia. cbn [plus] in H. rewrite <- Hlen in H.
-    rewrite (segment_tiles_data _ 0 s H). reflexivity.
+    rewrite split_sizes_sum in H by lia. cbn [plus] in H.
+    rewrite (segment_tiles_data _ 0 s); [reflexivity|]. rewrite Hlen. exact H.
 Qed.
 
 (* explicit / fitted intervals: every cell is exactly the half-open slice *)
@@ -428,7 +459,7 @@ Lemma sliding_segment_spec w (s : series) : (1 <= w)%nat -> s <> [] ->
     forall j, (j < w)%nat -> nth j win 0 = nth (Nat.min (i + j - w / 2) (length s - 1)) s 0.
 Proof.
   intros Hw Hne. unfold sliding_coded. split; [rewrite map_length, seq_length; reflexivity|].
-  intros i Hi win. unfold win. rewrite map_seq_nth by exact Hi.
+  intros i Hi. cbv zeta. rewrite map_seq_nth by exact Hi.
   assert (Hpl : length (edge_pad (w / 2) s) = (length s + 2 * (w / 2))%nat).
   { unfold edge_pad. rewrite !app_length, !repeat_length. lia. }
   assert (Hw2 : (w - 1 <= 2 * (w / 2))%nat).
@@ -436,4 +467,682 @@ Proof.
   split.
   - rewrite slice_length by (rewrite Hpl; lia). lia.
   - intros j Hj. rewrite slice_nth by lia. apply edge_pad_nth; [exact Hne|lia].
+Qed.
+
+(* ---------- linear interpolation onto an equally spaced grid ---------- *)
+
+Lemma Qn_le_inv a b : Qn a <= Qn b -> (a <= b)%nat.
+Proof. unfold Qn. rewrite <- Zle_Qle. lia. Qed.
+Lemma Qn_to_nat z : (0 <= z)%Z -> Qn (Z.to_nat z) == inject_Z z.
+Proof. intro H. unfold Qn. rewrite Z2Nat.id by exact H. reflexivity. Qed.
+
+Definition interp_k (s : series) (x : Q) : nat := Nat.min (Z.to_nat (Qfloor x)) (length s - 2).
+
+Lemma interp_bracket (s : series) x : (2 <= length s)%nat -> 0 <= x -> x <= Qn (length s - 1) ->
+  (S (interp_k s x) < length s)%nat /\ Qn (interp_k s x) <= x /\ x <= Qn (interp_k s x) + 1.
+Proof.
+  intros Hn H0 Hx. unfold interp_k.
+  assert (Hf0 : (0 <= Qfloor x)%Z).
+  { change 0%Z with (Qfloor 0). apply Qfloor_resp_le. exact H0. }
+  pose proof (Qfloor_le x) as Hfl. pose proof (Qlt_floor x) as Hfu.
+  rewrite inject_Z_plus in Hfu. change (inject_Z 1) with 1 in Hfu.
+  pose proof (Qn_to_nat _ Hf0) as Hq.
+  destruct (le_lt_dec (Z.to_nat (Qfloor x)) (length s - 2)) as [Hle|Hgt].
+  - rewrite Nat.min_l by exact Hle. split; [lia|]. rewrite Hq. split; lra.
+  - rewrite Nat.min_r by lia. split; [lia|].
+    assert (H1 : Qn (length s - 1) <= Qn (Z.to_nat (Qfloor x))) by (apply Qn_le; lia).
+    assert (H2 : Qn (length s - 1) == Qn (length s - 2) + 1).
+    { rewrite <- Qn_S. replace (S (length s - 2)) with (length s - 1)%nat by lia. reflexivity. }
+    split; lra.
+Qed.
+
+Lemma interp_at_convex (s : series) x :
+  interp_at s x == (1 - (x - Qn (interp_k s x))) * qnth s (interp_k s x)
+                   + (x - Qn (interp_k s x)) * qnth s (S (interp_k s x)).
+Proof. unfold interp_at. fold (interp_k s x). ring. Qed.
+
+Lemma interp_at_knot (s : series) x i : (2 <= length s)%nat -> (i < length s)%nat ->
+  x == Qn i -> interp_at s x == qnth s i.
+Proof.
+  intros Hn Hi Hx.
+  assert (H0 : 0 <= x) by (rewrite Hx; apply Qn_nonneg).
+  assert (H1 : x <= Qn (length s - 1)) by (rewrite Hx; apply Qn_le; lia).
+  destruct (interp_bracket s x Hn H0 H1) as (Hk & Hlo & Hhi).
+  rewrite interp_at_convex. remember (interp_k s x) as k eqn:Ek. clear Ek.
+  assert (Hcases : i = k \/ i = S k).
+  { assert (k <= i)%nat by (apply Qn_le_inv; lra).
+    assert (i <= S k)%nat by (apply Qn_le_inv; rewrite Qn_S; lra). lia. }
+  destruct Hcases as [->| ->].
+  - assert (E : x - Qn k == 0) by lra. rewrite E. ring.
+  - assert (E : x - Qn k == 1) by (rewrite Qn_S in Hx; lra). rewrite E. ring.
+Qed.
+
+Lemma interp_pos_range n m j : (j < m)%nat ->
+  0 <= interp_pos n m j /\ interp_pos n m j <= Qn (n - 1).
+Proof.
+  intro Hj. unfold interp_pos. destruct (le_lt_dec m 1) as [Hm|Hm].
+  - assert (j = 0%nat) by lia. subst j. change (Qn 0) with 0.
+    assert (E : 0 * Qn (n - 1) / Qn (m - 1) == 0) by (unfold Qdiv; ring).
+    rewrite E. split; [lra|apply Qn_nonneg].
+  - assert (Hd : 0 < Qn (m - 1)) by (apply Qn_pos; lia).
+    pose proof (Qn_nonneg j). pose proof (Qn_nonneg (n - 1)).
+    split.
+    + apply Qle_shift_div_l; [exact Hd|]. rewrite Qmult_0_l. apply Qmult_le_0_compat; assumption.
+    + apply Qle_shift_div_r; [exact Hd|]. rewrite (Qmult_comm (Qn (n - 1))).
+      apply Qmult_le_compat_r; [apply Qn_le; lia|assumption].
+Qed.
+
+Definition interp_cell_ok (m : nat) (s o : series) : Prop :=
+  let n := length s in
+  length o = m /\
+  (* every output value is the convex combination of the two samples that bracket its grid point *)
+  (forall j, (j < m)%nat -> exists k, (S k < n)%nat /\
+     Qn k <= interp_pos n m j <= Qn k + 1 /\
+     nth j o 0 == (1 - (interp_pos n m j - Qn k)) * qnth s k + (interp_pos n m j - Qn k) * qnth s (S k)) /\
+  (* grid points that fall on a sample return that sample *)
+  (forall j i, (j < m)%nat -> (i < n)%nat -> interp_pos n m j == Qn i -> nth j o 0 == qnth s i) /\
+  (* first and last point are kept; resampling to the same length is the identity *)
+  ((2 <= m)%nat -> nth 0 o 0 == qnth s 0 /\ nth (m - 1) o 0 == qnth s (n - 1)) /\
+  (m = n -> forall j, (j < m)%nat -> nth j o 0 == qnth s j).
+
+Lemma interp_series_ok m (s : series) : (2 <= length s)%nat -> interp_cell_ok m s (interp_series m s).
+Proof.
+  intro Hn. unfold interp_cell_ok. cbv zeta.
+  assert (Hnth : forall j, (j < m)%nat ->
+            nth j (interp_series m s) 0 = interp_at s (interp_pos (length s) m j)).
+  { intros j Hj. unfold interp_series.
+    apply (map_seq_nth (fun j => interp_at s (interp_pos (length s) m j))). exact Hj. }
+  assert (Hknot : forall j i, (j < m)%nat -> (i < length s)%nat ->
+            interp_pos (length s) m j == Qn i -> nth j (interp_series m s) 0 == qnth s i).
+  { intros j i Hj Hi Hx. rewrite (Hnth j Hj). apply interp_at_knot; assumption. }
+  split; [unfold interp_series; rewrite map_length, seq_length; reflexivity|].
+  split; [|split; [exact Hknot|split]].
+  - intros j Hj. destruct (interp_pos_range (length s) m j Hj) as [H0 H1].
+    destruct (interp_bracket s _ Hn H0 H1) as (Hk & Hlo & Hhi).
+    exists (interp_k s (interp_pos (length s) m j)). split; [exact Hk|]. split; [split; assumption|].
+    rewrite (Hnth j Hj). apply interp_at_convex.
+  - intro Hm. split.
+    + apply Hknot; [lia|lia|]. unfold interp_pos. change (Qn 0) with 0. unfold Qdiv. ring.
+    + apply Hknot; [lia|lia|]. unfold interp_pos. field.
+      pose proof (Qn_pos (m - 1) ltac:(lia)). lra.
+  - intros Hmn j Hj. apply Hknot; [exact Hj|lia|]. unfold interp_pos. rewrite <- Hmn. field.
+    pose proof (Qn_pos (m - 1) ltac:(lia)). lra.
+Qed.
+
+Lemma interp_spec m p out : (2 <= min_len p)%nat -> interp_apply m p = Ok out ->
+  cellwise (interp_cell_ok m) p out.
+Proof.
+  intro Hmin. unfold interp_apply.
+  destruct ((min_len p <? 2)%nat && (2 <=? m)%nat); [discriminate|].
+  intro H. injection H as <-. apply cellwise_map. intros i s Hi Hs.
+  apply interp_series_ok. pose proof (min_len_le p i s Hi Hs). lia.
+Qed.
+
+(* ---------- one row per instance, in input order; exact lengths ---------- *)
+
+Inductive xf :=
+  | XPad (L : nat) (fill : Q)
+  | XTrunc (lo : nat) (upper : option nat)
+  | XInterp (m : nat)
+  | XConcat
+  | XPaa (m : nat)
+  | XISegInt (k : nat) (pfit : panel)
+  | XISegArr (ivs : list (nat * nat))
+  | XSlide (w : nat)
+  | XRowS2S (f : sfun).
+
+Definition apply_xf (t : xf) (p : panel) : res panel :=
+  match t with
+  | XPad L fill => pad_apply L fill p
+  | XTrunc lo upper => trunc_apply lo upper p
+  | XInterp m => interp_apply m p
+  | XConcat => col_concat p
+  | XPaa m => paa_apply m p
+  | XISegInt k pfit => iseg_int k pfit p
+  | XISegArr ivs => iseg_arr ivs p
+  | XSlide w => sliding_apply w p
+  | XRowS2S f => row_s2s f p
+  end.
+
+(* what happens to ONE instance: depends on the fitted configuration only, never on the other
+   instances of the panel being transformed *)
+Definition row_xf (t : xf) (i : inst) : inst :=
+  match t with
+  | XPad L fill => map (pad_series L fill) i
+  | XTrunc lo None => map (slice 0 lo) i
+  | XTrunc lo (Some u) => map (slice lo u) i
+  | XInterp m => map (interp_series m) i
+  | XConcat => [tab_row i]
+  | XPaa m => map (paa_coded m) i
+  | XISegInt k pfit => segment (split_bounds (first_len pfit) k) (only_col i)
+  | XISegArr ivs => segment ivs (only_col i)
+  | XSlide w => sliding_coded w (only_col i)
+  | XRowS2S f => map (sfun_apply f) i
+  end.
+
+Lemma one_row_per_instance_in_order t p out :
+  apply_xf t p = Ok out ->
+  out = map (row_xf t) p /\ length out = length p /\
+  forall i, (i < length p)%nat -> nth i out [] = row_xf t (nth i p []).
+Proof.
+  intro H. assert (E : out = map (row_xf t) p).
+  { destruct t; cbn [apply_xf row_xf] in *.
+    - unfold pad_apply in H. destruct (L <? max_len p)%nat; [discriminate|]. injection H as <-. reflexivity.
+    - unfold trunc_apply in H. destruct (min_len p <? lo)%nat; [discriminate|].
+      destruct upper as [u|].
+      + destruct ((lo <? u)%nat && (min_len p <? u)%nat); [discriminate|]. injection H as <-. reflexivity.
+      + injection H as <-. reflexivity.
+    - unfold interp_apply in H. destruct ((min_len p <? 2)%nat && (2 <=? m)%nat); [discriminate|].
+      injection H as <-. reflexivity.
+    - unfold col_concat in H. destruct (rectangular p); [|discriminate]. injection H as <-. reflexivity.
+    - unfold paa_apply in H.
+      destruct ((m =? 0)%nat || (first_len p <? m)%nat || negb (rectangular p)); [discriminate|].
+      injection H as <-. reflexivity.
+    - unfold iseg_int, iseg_int_with in H.
+      destruct (negb (univariate p) || negb (equal_length p) || (k =? 0)%nat
+                || (first_len pfit / 2 <? k)%nat); [discriminate|].
+      injection H as <-. reflexivity.
+    - unfold iseg_arr in H. destruct (negb (univariate p) || negb (equal_length p)); [discriminate|].
+      injection H as <-. reflexivity.
+    - unfold sliding_apply in H.
+      destruct (negb (univariate p) || negb (equal_length p) || (w =? 0)%nat); [discriminate|].
+      injection H as <-. reflexivity.
+    - unfold row_s2s in H. destruct (equal_length p); [|discriminate]. injection H as <-. reflexivity. }
+  split; [exact E|]. subst out. split; [apply map_length|].
+  intros i Hi. rewrite nth_indep with (d' := row_xf t []) by (rewrite map_length; exact Hi).
+  apply map_nth.
+Qed.
+
+(* the transformers with a tabular output: one row per instance as well *)
+Lemma tabular_one_row_per_instance p :
+  (forall rows, tabularize p = Ok rows -> rows = map tab_row p) /\
+  (forall g rows, row_s2p g p = Ok rows -> rows = map (map (pfun_apply g)) p) /\
+  (forall feats ivs rows, rife_apply feats ivs p = Ok rows ->
+     rows = map (fun i => rife_row feats ivs (only_col i)) p).
+Proof.
+  repeat split.
+  - intros rows H. unfold tabularize in H. destruct (rectangular p); [|discriminate].
+    injection H as <-. reflexivity.
+  - intros g rows H. unfold row_s2p in H. destruct (equal_length p); [|discriminate].
+    injection H as <-. reflexivity.
+  - intros feats ivs rows H. unfold rife_apply in H.
+    destruct (negb (univariate p) || negb (equal_length p)); [discriminate|].
+    injection H as <-. reflexivity.
+Qed.
+
+Lemma cellwise_out_forall (R : series -> series -> Prop) (P : series -> Prop) p out :
+  cellwise R p out -> (forall s o, R s o -> P o) -> forall io o, In io out -> In o io -> P o.
+Proof.
+  intros Hc HR. induction Hc as [|i io' p' out' Hrow _ IH]; intros io o Hio Ho; [destruct Hio|].
+  destruct Hio as [<-|Hio]; [|eapply IH; eassumption].
+  clear IH. induction Hrow as [|s o' i' io'' HRso _ IH2]; [destruct Ho|].
+  destruct Ho as [<-|Ho]; [eapply HR; exact HRso|apply IH2; exact Ho].
+Qed.
+
+(* no assumption on the input lengths: the panel may be ragged *)
+Lemma exact_lengths_for_unequal_panels (p out : panel) :
+  (forall L fill, pad_apply L fill p = Ok out ->
+     forall io o, In io out -> In o io -> length o = L) /\
+  (forall lo upper, trunc_apply lo upper p = Ok out ->
+     forall io o, In io out -> In o io ->
+       length o = match upper with None => lo | Some u => (u - lo)%nat end) /\
+  (forall m, interp_apply m p = Ok out -> forall io o, In io out -> In o io -> length o = m) /\
+  (forall m, (1 <= m <= min_len p)%nat -> paa_apply m p = Ok out ->
+     forall io o, In io out -> In o io -> length o = m).
+Proof.
+  repeat split.
+  - intros L fill H. eapply cellwise_out_forall; [apply pad_spec; exact H|]. intros s o [Hl _]. exact Hl.
+  - intros lo upper H. eapply cellwise_out_forall; [apply truncate_spec; exact H|].
+    intros s o Hc. unfold trunc_cell_ok in Hc. destruct upper; destruct Hc as [Hl _]; exact Hl.
+  - intros m H. unfold interp_apply in H.
+    destruct ((min_len p <? 2)%nat && (2 <=? m)%nat); [discriminate|]. injection H as <-.
+    intros io o Hio Ho. unfold map_cells in Hio. apply in_map_iff in Hio. destruct Hio as (i & <- & _).
+    apply in_map_iff in Ho. destruct Ho as (s & <- & _). unfold interp_series.
+    rewrite map_length, seq_length. reflexivity.
+  - intros m Hm H. eapply cellwise_out_forall; [apply paa_panel_spec; eassumption|].
+    intros s o [_ Hl]. exact Hl.
+Qed.
+
+(* ---------- features of the fitted random intervals ---------- *)
+
+Lemma nth_concat_uniform {A} (d : A) k : forall (ll : list (list A)) a b,
+  (forall l, In l ll -> length l = k) -> (a < length ll)%nat -> (b < k)%nat ->
+  nth (a * k + b) (concat ll) d = nth b (nth a ll []) d.
+Proof.
+  induction ll as [|l ll IH]; intros a b Hall Ha Hb; cbn [length] in Ha; [lia|].
+  assert (Hl : length l = k) by (apply Hall; left; reflexivity).
+  destruct a as [|a]; cbn [concat nth].
+  - cbn [Nat.mul plus]. apply app_nth1. lia.
+  - rewrite app_nth2 by (rewrite Hl; cbn [Nat.mul]; lia).
+    replace (S a * k + b - length l)%nat with (a * k + b)%nat by (rewrite Hl; cbn [Nat.mul]; lia).
+    apply IH; [|lia|exact Hb]. intros l' Hl'. apply Hall. right. exact Hl'.
+Qed.
+Lemma length_concat_uniform {A} k : forall (ll : list (list A)),
+  (forall l, In l ll -> length l = k) -> length (concat ll) = (length ll * k)%nat.
+Proof.
+  induction ll as [|l ll IH]; intro Hall; [reflexivity|]. cbn [concat length]. rewrite app_length.
+  rewrite IH by (intros l' Hl'; apply Hall; right; exact Hl').
+  rewrite (Hall l (or_introl eq_refl)). cbn [Nat.mul]. reflexivity.
+Qed.
+
+(* feature-major layout: column f * |intervals| + v holds feature f of the half-open slice v *)
+Lemma rife_spec feats ivs (s : series) :
+  length (rife_row feats ivs s) = (length feats * length ivs)%nat /\
+  forall f v, (f < length feats)%nat -> (v < length ivs)%nat ->
+    nth (f * length ivs + v) (rife_row feats ivs s) (0, false) =
+    feat_apply (nth f feats FMean) (slice (fst (nth v ivs (0, 0)%nat)) (snd (nth v ivs (0, 0)%nat)) s).
+Proof.
+  unfold rife_row.
+  set (row := fun f => map (fun iv => feat_apply f (slice (fst iv) (snd iv) s)) ivs).
+  assert (Hall : forall l, In l (map row feats) -> length l = length ivs).
+  { intros l Hl. apply in_map_iff in Hl. destruct Hl as (f & <- & _). unfold row. apply map_length. }
+  split.
+  - rewrite (length_concat_uniform (length ivs)) by exact Hall. rewrite map_length. reflexivity.
+  - intros f v Hf Hv. rewrite (nth_concat_uniform (0, false) (length ivs)); [|exact Hall| |exact Hv].
+    2:{ rewrite map_length. exact Hf. }
+    rewrite nth_indep with (d' := row FMean) by (rewrite map_length; exact Hf).
+    rewrite map_nth. unfold row.
+    rewrite nth_indep with (d' := feat_apply (nth f feats FMean)
+      (slice (fst (0, 0)%nat) (snd (0, 0)%nat) s)) by (rewrite map_length; exact Hv).
+    rewrite (map_nth (fun iv => feat_apply (nth f feats FMean) (slice (fst iv) (snd iv) s))).
+    reflexivity.
+Qed.
+
+(* ---------- slope feature (utils/slope_and_trend._slope) is the least-squares slope ---------- *)
+
+Lemma qsum_app l1 l2 : qsum (l1 ++ l2) == qsum l1 + qsum l2.
+Proof.
+  unfold qsum. induction l1 as [|x l1 IH]; cbn [app fold_right]; [lra|]. rewrite IH. lra.
+Qed.
+Lemma time_axis_S n : time_axis (S n) = time_axis n ++ [Qn (S n)].
+Proof. unfold time_axis. rewrite seq_S, map_app. reflexivity. Qed.
+Lemma time_axis_length n : length (time_axis n) = n.
+Proof. unfold time_axis. rewrite map_length, seq_length. reflexivity. Qed.
+Lemma sum_axis n : qsum (time_axis n) == Qn n * (Qn n + 1) / 2.
+Proof.
+  induction n as [|n IH].
+  - cbn. reflexivity.
+  - rewrite time_axis_S, qsum_app, IH. cbn [qsum fold_right]. rewrite Qn_S. field.
+Qed.
+Lemma sum_axis_sq n :
+  qsum (map (fun v => v * v) (time_axis n)) == Qn n * (Qn n + 1) * (2 * Qn n + 1) / 6.
+Proof.
+  induction n as [|n IH].
+  - cbn. reflexivity.
+  - rewrite time_axis_S, map_app, qsum_app, IH. cbn [map qsum fold_right]. rewrite Qn_S. field.
+Qed.
+Lemma map2_self (l : series) : map2 Qmult l l = map (fun v => v * v) l.
+Proof. unfold map2. induction l as [|x l IH]; cbn; [reflexivity|]. rewrite IH. reflexivity. Qed.
+
+Definition axis_var (n : nat) : Q :=
+  let x := time_axis n in qmean (map2 Qmult x x) - qmean x * qmean x.
+
+Lemma axis_var_closed n : (1 <= n)%nat -> axis_var n == (Qn n + 1) * (Qn n - 1) / 12.
+Proof.
+  intro Hn. unfold axis_var. cbv zeta. unfold qmean. rewrite map2_self, map_length, time_axis_length.
+  rewrite sum_axis, sum_axis_sq. field. pose proof (Qn_pos n Hn). lra.
+Qed.
+Lemma axis_var_pos n : (2 <= n)%nat -> 0 < axis_var n.
+Proof.
+  intro Hn. rewrite axis_var_closed by lia.
+  assert (H : 2 <= Qn n) by (change 2 with (Qn 2); apply Qn_le; exact Hn).
+  apply Qlt_shift_div_l; [lra|]. rewrite Qmult_0_l.
+  apply Qmult_lt_0_compat; lra.
+Qed.
+
+Lemma resid_sum a b : forall (y x : series), length y = length x ->
+  qsum (map2 (fun yi xi => yi - a - b * xi) y x) == qsum y - Qn (length y) * a - b * qsum x.
+Proof.
+  unfold map2. induction y as [|yi y IH]; intros [|xi x] H; cbn [length] in H; try discriminate.
+  - cbn [combine map qsum fold_right length]. change (Qn 0) with 0. ring.
+  - cbn [combine map qsum fold_right fst snd length].
+    change (fold_right Qplus 0 (map (fun p => fst p - a - b * snd p) (combine y x)))
+      with (qsum (map (fun p => fst p - a - b * snd p) (combine y x))).
+    change (fold_right Qplus 0 y) with (qsum y). change (fold_right Qplus 0 x) with (qsum x).
+    rewrite IH by lia. rewrite Qn_S. ring.
+Qed.
+Lemma resid_x_sum a b : forall (y x : series), length y = length x ->
+  qsum (map2 (fun yi xi => (yi - a - b * xi) * xi) y x) ==
+  qsum (map2 Qmult y x) - a * qsum x - b * qsum (map2 Qmult x x).
+Proof.
+  unfold map2. induction y as [|yi y IH]; intros [|xi x] H; cbn [length] in H; try discriminate.
+  - cbn [combine map qsum fold_right]. ring.
+  - cbn [combine map qsum fold_right fst snd].
+    change (fold_right Qplus 0 (map (fun p => (fst p - a - b * snd p) * snd p) (combine y x)))
+      with (qsum (map (fun p => (fst p - a - b * snd p) * snd p) (combine y x))).
+    change (fold_right Qplus 0 (map (fun p => fst p * snd p) (combine y x)))
+      with (qsum (map (fun p => fst p * snd p) (combine y x))).
+    change (fold_right Qplus 0 (map (fun p => fst p * snd p) (combine x x)))
+      with (qsum (map (fun p => fst p * snd p) (combine x x))).
+    change (fold_right Qplus 0 x) with (qsum x).
+    rewrite IH by lia. ring.
+Qed.
+
+(* normal equations: with b = _slope(y) and a = mean(y) - b mean(x), the residuals of the line
+   a + b x (x = 1..n) sum to zero and are orthogonal to x - the defining property of the
+   ordinary-least-squares line *)
+Lemma slope_is_ols (y : series) : (2 <= length y)%nat ->
+  let x := time_axis (length y) in
+  let b := slope_coded y in
+  let a := qmean y - b * qmean x in
+  qsum (map2 (fun yi xi => yi - a - b * xi) y x) == 0 /\
+  qsum (map2 (fun yi xi => (yi - a - b * xi) * xi) y x) == 0.
+Proof.
+  intro Hn. cbv zeta.
+  pose proof (axis_var_pos (length y) Hn) as HD. unfold axis_var in HD. cbv zeta in HD.
+  pose proof (Qn_pos (length y) ltac:(lia)) as HN.
+  assert (Hlen : length y = length (time_axis (length y))) by (rewrite time_axis_length; reflexivity).
+  assert (Hb : slope_coded y * (qmean (map2 Qmult (time_axis (length y)) (time_axis (length y)))
+                                - qmean (time_axis (length y)) * qmean (time_axis (length y)))
+               == qmean (map2 Qmult y (time_axis (length y)))
+                  - qmean (time_axis (length y)) * qmean y).
+  { unfold slope_coded. cbv zeta. field. lra. }
+  remember (slope_coded y) as b eqn:Eb. clear Eb.
+  rewrite resid_sum, resid_x_sum by exact Hlen.
+  unfold qmean in *. unfold map2 in *.
+  rewrite !map_length, !combine_length, !time_axis_length, !Nat.min_id in Hb.
+  rewrite time_axis_length.
+  set (N := Qn (length y)) in *. set (Sy := qsum y) in *.
+  set (Sx := qsum (time_axis (length y))) in *.
+  set (Sxy := qsum (map (fun p => fst p * snd p) (combine y (time_axis (length y))))) in *.
+  set (Sxx := qsum (map (fun p => fst p * snd p)
+                        (combine (time_axis (length y)) (time_axis (length y))))) in *.
+  split.
+  - field. lra.
+  - assert (E : Sxy - (Sy / N - b * (Sx / N)) * Sx - b * Sxx
+                == N * ((Sxy / N - Sx / N * (Sy / N)) - b * (Sxx / N - Sx / N * (Sx / N)))).
+    { field. lra. }
+    rewrite E, Hb. ring.
+Qed.
+
+(* ---------- autocorrelation ---------- *)
+
+Lemma acf_spec adjusted nlags (z r : series) : acf adjusted nlags z = Ok r ->
+  length r = match nlags with Some k => Nat.min (S k) (length z) | None => length z end /\
+  (forall k, (k < length r)%nat -> nth k r 0 == acov adjusted z k / acov adjusted z 0) /\
+  ((1 <= length r)%nat -> nth 0 r 0 == 1).
+Proof.
+  unfold acf. cbv zeta. destruct (Qeq_bool (acov adjusted z 0) 0) eqn:E; [discriminate|].
+  intro H. injection H as <-. rewrite map_length, seq_length.
+  assert (Hne : ~ acov adjusted z 0 == 0).
+  { intro H0. apply Qeq_bool_iff in H0. congruence. }
+  split; [reflexivity|]. split.
+  - intros k Hk. rewrite (map_seq_nth (fun k => acov adjusted z k / acov adjusted z 0)) by exact Hk.
+    reflexivity.
+  - intro H1. rewrite (map_seq_nth (fun k => acov adjusted z k / acov adjusted z 0)) by exact H1.
+    field. exact Hne.
+Qed.
+
+(* ---------- column-wise MinMax adaptor ---------- *)
+
+Lemma qmin_list_le : forall (l : series) d x, In x l -> fold_right qmin d l <= x.
+Proof.
+  induction l as [|a l IH]; intros d x H; [destruct H|]. cbn [fold_right].
+  destruct (qmin_case a (fold_right qmin d l)) as [[Hc ->]|[Hc ->]]; destruct H as [<-|H].
+  - lra.
+  - specialize (IH d x H). lra.
+  - lra.
+  - apply IH. exact H.
+Qed.
+Lemma qmax_list_ge : forall (l : series) d x, In x l -> x <= fold_right qmax d l.
+Proof.
+  induction l as [|a l IH]; intros d x H; [destruct H|]. cbn [fold_right].
+  destruct (qmax_case a (fold_right qmax d l)) as [[Hc ->]|[Hc ->]]; destruct H as [<-|H].
+  - lra.
+  - apply IH. exact H.
+  - lra.
+  - specialize (IH d x H). lra.
+Qed.
+
+Lemma minmax_col_spec (cfit c : series) :
+  let mn := qmin_list cfit in let mx := qmax_list cfit in
+  length (minmax_col cfit c) = length c /\
+  (forall x, In x cfit -> mn <= x <= mx) /\
+  (~ mx - mn == 0 -> forall j, (j < length c)%nat ->
+     nth j (minmax_col cfit c) 0 == (qnth c j - mn) / (mx - mn)) /\
+  (* transforming the fitted column itself lands in [0, 1] *)
+  (~ mx - mn == 0 -> forall j, (j < length cfit)%nat ->
+     0 <= nth j (minmax_col cfit cfit) 0 <= 1).
+Proof.
+  cbv zeta. unfold minmax_col. cbv zeta. split; [apply map_length|].
+  assert (Hb : forall x, In x cfit -> qmin_list cfit <= x <= qmax_list cfit).
+  { intros x Hx. split; [apply qmin_list_le|apply qmax_list_ge]; exact Hx. }
+  split; [exact Hb|].
+  assert (Hnth : forall (c0 : series) j, (j < length c0)%nat -> ~ qmax_list cfit - qmin_list cfit == 0 ->
+     nth j (map (fun x => (x - qmin_list cfit) /
+        (if Qeq_bool (qmax_list cfit - qmin_list cfit) 0 then 1 else qmax_list cfit - qmin_list cfit)) c0) 0
+     == (qnth c0 j - qmin_list cfit) / (qmax_list cfit - qmin_list cfit)).
+  { intros c0 j Hj Hne.
+    destruct (Qeq_bool (qmax_list cfit - qmin_list cfit) 0) eqn:E;
+      [apply Qeq_bool_iff in E; contradiction|].
+    rewrite nth_indep with (d' := (0 - qmin_list cfit) / (qmax_list cfit - qmin_list cfit))
+      by (rewrite map_length; exact Hj).
+    rewrite (map_nth (fun x => (x - qmin_list cfit) / (qmax_list cfit - qmin_list cfit))).
+    reflexivity. }
+  split.
+  - intros Hne j Hj. apply Hnth; assumption.
+  - intros Hne j Hj. rewrite (Hnth cfit j Hj Hne).
+    assert (Hin : In (qnth cfit j) cfit) by (apply nth_In; exact Hj).
+    destruct (Hb _ Hin) as [H1 H2].
+    assert (Hpos : 0 < qmax_list cfit - qmin_list cfit).
+    { destruct (Qlt_le_dec 0 (qmax_list cfit - qmin_list cfit)) as [H|H]; [exact H|].
+      exfalso. apply Hne. lra. }
+    split.
+    + apply Qle_shift_div_l; [exact Hpos|]. lra.
+    + apply Qle_shift_div_r; [exact Hpos|]. lra.
+Qed.
+
+(* ---------- imputation ---------- *)
+
+(* l' extends l: same length, every observed value kept in place *)
+Definition keeps (a b : oq) : Prop := match a with Some x => b = Some x | None => True end.
+Definition ext (l l' : oseries) : Prop := Forall2 keeps l l'.
+
+Lemma keeps_refl a : keeps a a.
+Proof. destruct a; cbn; reflexivity. Qed.
+Lemma ext_refl l : ext l l.
+Proof. induction l; constructor; [apply keeps_refl|assumption]. Qed.
+Lemma ext_trans l1 l2 l3 : ext l1 l2 -> ext l2 l3 -> ext l1 l3.
+Proof.
+  intro H. revert l3. induction H as [|a b l1 l2 Hab _ IH]; intros l3 H3; inversion H3; subst; constructor.
+  - destruct a as [x|]; cbn in *; [|exact I]. subst b. assumption.
+  - apply IH. assumption.
+Qed.
+Lemma Forall2_rev {A B} (R : A -> B -> Prop) l1 l2 : Forall2 R l1 l2 -> Forall2 R (rev l1) (rev l2).
+Proof.
+  induction 1; cbn; [constructor|]. apply Forall2_app; [assumption|constructor; [assumption|constructor]].
+Qed.
+Lemma ext_ffill_from : forall l prev, ext l (ffill_from prev l).
+Proof.
+  induction l as [|[x|] l IH]; intro prev; cbn; constructor; try apply IH; cbn; auto.
+Qed.
+Lemma ext_bfill l : ext l (bfill l).
+Proof.
+  unfold bfill. rewrite <- (rev_involutive l) at 1. apply Forall2_rev. apply ext_ffill_from.
+Qed.
+Lemma ext_final_fill l : ext l (final_fill l).
+Proof. unfold final_fill. eapply ext_trans; [apply ext_ffill_from|apply ext_bfill]. Qed.
+Lemma ext_fill_with v l : ext l (fill_with v l).
+Proof. induction l as [|[x|] l IH]; cbn; constructor; cbn; auto. Qed.
+Lemma Forall2_positions {A B} (R : A -> B -> Prop) (d : A) (f : nat -> B) : forall (l : list A) a,
+  (forall t, (t < length l)%nat -> R (nth t l d) (f (a + t)%nat)) ->
+  Forall2 R l (map f (seq a (length l))).
+Proof.
+  induction l as [|x l IH]; intros a H; cbn [length seq map]; constructor.
+  - specialize (H 0%nat). cbn in H. rewrite Nat.add_0_r in H. apply H. lia.
+  - apply IH. intros t Ht. specialize (H (S t)). cbn [nth] in H.
+    replace (S a + t)%nat with (a + S t)%nat by lia. apply H. cbn. lia.
+Qed.
+
+Lemma ext_impute_core m l : ext l (impute_core m l).
+Proof.
+  destruct m; cbn [impute_core]; try apply ext_fill_with.
+  - apply ext_ffill_from.
+  - apply ext_bfill.
+  - unfold positions. apply (Forall2_positions keeps None). intros t Ht. cbn [plus].
+    unfold near_at. destruct (nth t l None); cbn; auto.
+  - unfold positions. apply (Forall2_positions keeps None). intros t Ht. cbn [plus].
+    unfold lin_at. destruct (nth t l None); cbn; auto.
+  - destruct (observed l); [apply ext_refl|].
+    destruct (ols_line _) as [a b]. unfold positions.
+    apply (Forall2_positions keeps None). intros t Ht. cbn [plus].
+    destruct (nth t l None); cbn; auto.
+Qed.
+Lemma ext_impute m l : ext l (impute m l).
+Proof. unfold impute. eapply ext_trans; [apply ext_impute_core|apply ext_final_fill]. Qed.
+
+Lemma ext_nth l l' : ext l l' -> forall t x, nth t l None = Some x -> nth t l' None = Some x.
+Proof.
+  induction 1 as [|a b l l' Hab _ IH]; intros t x Ht; [destruct t; discriminate|].
+  destruct t as [|t]; cbn in *; [subst a; exact Hab|]. apply IH. exact Ht.
+Qed.
+
+(* forward fill reaches every position at or after an observation *)
+Lemma ffill_from_some : forall l prev t, (t < length l)%nat ->
+  (prev <> None \/ exists u, (u <= t)%nat /\ nth u l None <> None) ->
+  nth t (ffill_from prev l) None <> None.
+Proof.
+  induction l as [|o l IH]; intros prev t Ht H; cbn [length] in Ht; [lia|].
+  destruct o as [x|]; cbn [ffill_from].
+  - destruct t as [|t]; cbn [nth]; [discriminate|]. apply IH; [lia|]. left. discriminate.
+  - destruct t as [|t]; cbn [nth].
+    + destruct H as [H|(u & Hu & Hn)]; [exact H|]. assert (u = 0%nat) by lia. subst u. cbn in Hn. congruence.
+    + apply IH; [lia|]. destruct H as [H|(u & Hu & Hn)]; [left; exact H|].
+      destruct u as [|u]; [cbn in Hn; congruence|]. right. exists u. split; [lia|exact Hn].
+Qed.
+Lemma bfill_some l t : (t < length l)%nat ->
+  (exists u, (t <= u < length l)%nat /\ nth u l None <> None) -> nth t (bfill l) None <> None.
+Proof.
+  intros Ht (u & Hu & Hn). unfold bfill.
+  assert (Hlen : length (ffill (rev l)) = length l).
+  { apply eq_sym. rewrite <- (rev_length l). eapply Forall2_len. apply ext_ffill_from. }
+  rewrite rev_nth by lia. rewrite Hlen. unfold ffill.
+  apply ffill_from_some; [rewrite rev_length; lia|]. right.
+  exists (length l - S u)%nat. split; [lia|]. rewrite rev_nth by lia.
+  replace (length l - S (length l - S u))%nat with u by lia. exact Hn.
+Qed.
+Lemma final_fill_complete l t : (t < length l)%nat ->
+  (exists w, nth w l None <> None) -> nth t (final_fill l) None <> None.
+Proof.
+  intros Ht (w & Hw). unfold final_fill.
+  assert (Hwl : (w < length l)%nat).
+  { destruct (lt_dec w (length l)); [assumption|]. rewrite nth_overflow in Hw by lia. congruence. }
+  assert (Hlen : length (ffill l) = length l).
+  { apply eq_sym. eapply Forall2_len. apply ext_ffill_from. }
+  apply bfill_some; [lia|].
+  destruct (le_lt_dec t w) as [Hle|Hlt].
+  - exists w. split; [lia|]. unfold ffill. apply ffill_from_some; [exact Hwl|].
+    right. exists w. split; [lia|exact Hw].
+  - exists t. split; [lia|]. unfold ffill. apply ffill_from_some; [exact Ht|].
+    right. exists w. split; [lia|exact Hw].
+Qed.
+
+Lemma nth_positions {B} (f : nat -> B) (d : B) {A} (l : list A) t :
+  (t < length l)%nat -> nth t (map f (positions l)) d = f t.
+Proof. intro H. unfold positions. apply map_seq_nth. exact H. Qed.
+
+(* what the neighbour search returns *)
+Lemma prev_obs_spec l : forall t tp vp, prev_obs l t = Some (tp, vp) ->
+  (tp < t)%nat /\ nth tp l None = Some vp /\ forall u, (tp < u < t)%nat -> nth u l None = None.
+Proof.
+  induction t as [|t IH]; intros tp vp H; cbn [prev_obs] in H; [discriminate|].
+  destruct (nth t l None) as [v|] eqn:E.
+  - injection H as <- <-. split; [lia|]. split; [exact E|]. intros u Hu. lia.
+  - destruct (IH tp vp H) as (H1 & H2 & H3). split; [lia|]. split; [exact H2|].
+    intros u Hu. destruct (Nat.eq_dec u t) as [->|Hne]; [exact E|]. apply H3. lia.
+Qed.
+Lemma next_obs_fuel_spec l : forall fuel t tn vn, next_obs_fuel fuel l t = Some (tn, vn) ->
+  (t <= tn)%nat /\ nth tn l None = Some vn /\ forall u, (t <= u < tn)%nat -> nth u l None = None.
+Proof.
+  induction fuel as [|f IH]; intros t tn vn H; cbn [next_obs_fuel] in H; [discriminate|].
+  destruct (nth t l None) as [v|] eqn:E.
+  - injection H as <- <-. split; [lia|]. split; [exact E|]. intros u Hu. lia.
+  - destruct (IH (S t) tn vn H) as (H1 & H2 & H3). split; [lia|]. split; [exact H2|].
+    intros u Hu. destruct (Nat.eq_dec u t) as [->|Hne]; [exact E|]. apply H3. lia.
+Qed.
+Lemma next_obs_spec l t tn vn : next_obs l t = Some (tn, vn) ->
+  (t < tn)%nat /\ nth tn l None = Some vn /\ forall u, (t < u < tn)%nat -> nth u l None = None.
+Proof.
+  unfold next_obs. intro H. destruct (next_obs_fuel_spec l _ _ _ _ H) as (H1 & H2 & H3).
+  split; [lia|]. split; [exact H2|]. intros u Hu. apply H3. lia.
+Qed.
+
+Theorem impute_spec m (l : oseries) :
+  (* same length, observed values untouched *)
+  length (impute m l) = length l /\
+  (forall t x, nth t l None = Some x -> nth t (impute m l) None = Some x) /\
+  (* once anything is observed, nothing stays missing (the final ffill + bfill) *)
+  ((exists w, nth w l None <> None) -> forall t, (t < length l)%nat -> nth t (impute m l) None <> None).
+Proof.
+  pose proof (ext_impute m l) as He. split; [apply eq_sym; eapply Forall2_len; exact He|].
+  split; [apply ext_nth; exact He|].
+  intros (w & Hw) t Ht. unfold impute.
+  assert (Hlen : length (impute_core m l) = length l).
+  { apply eq_sym. eapply Forall2_len. apply ext_impute_core. }
+  apply final_fill_complete; [lia|]. exists w.
+  destruct (nth w l None) as [x|] eqn:E; [|congruence].
+  rewrite (ext_nth _ _ (ext_impute_core m l) w x E). discriminate.
+Qed.
+
+Lemma nth_fill_with v : forall (l : oseries) t, (t < length l)%nat -> nth t l None = None ->
+  nth t (fill_with v l) None = v.
+Proof.
+  induction l as [|o l IH]; intros t Ht Hg; cbn [length] in Ht; [lia|].
+  destruct t as [|t]; cbn [nth fill_with map] in *.
+  - subst o. reflexivity.
+  - apply IH; [lia|exact Hg].
+Qed.
+
+(* the value a gap receives, per rule *)
+Theorem impute_rules (l : oseries) t : (t < length l)%nat -> nth t l None = None ->
+  (observed l <> [] -> nth t (impute IMean l) None = Some (qmean (observed l))) /\
+  (observed l <> [] -> nth t (impute IMedian l) None = Some (median (observed l))) /\
+  (forall v, nth t (impute (IConstant v) l) None = Some v) /\
+  (forall tp vp tn vn, prev_obs l t = Some (tp, vp) -> next_obs l t = Some (tn, vn) ->
+     nth t (impute ILinear l) None = Some (vp + (Qn t - Qn tp) / (Qn tn - Qn tp) * (vn - vp)) /\
+     nth t (impute INearest l) None = Some (if (t - tp <=? tn - t)%nat then vp else vn)) /\
+  (forall tp vp, prev_obs l t = Some (tp, vp) -> next_obs l t = None ->
+     nth t (impute ILinear l) None = Some vp).
+Proof.
+  intros Ht Hgap.
+  assert (Hfw : forall v, nth t (fill_with v l) None = v).
+  { intro v. apply nth_fill_with; assumption. }
+  assert (Hfin : forall c x, nth t c None = Some x -> nth t (final_fill c) None = Some x).
+  { intros c x. apply ext_nth. apply ext_final_fill. }
+  repeat split.
+  - intro Hobs. unfold impute. apply Hfin. cbn [impute_core]. rewrite Hfw.
+    destruct (observed l); [congruence|reflexivity].
+  - intro Hobs. unfold impute. apply Hfin. cbn [impute_core]. rewrite Hfw.
+    destruct (observed l); [congruence|reflexivity].
+  - intro v. unfold impute. apply Hfin. cbn [impute_core]. apply Hfw.
+  - unfold impute. apply Hfin. cbn [impute_core]. rewrite (nth_positions (lin_at l) None l t Ht).
+    unfold lin_at. rewrite Hgap, H, H0. reflexivity.
+  - unfold impute. apply Hfin. cbn [impute_core]. rewrite (nth_positions (near_at l) None l t Ht).
+    unfold near_at. rewrite Hgap, H, H0. destruct (t - tp <=? tn - t)%nat; reflexivity.
+  - intros tp vp Hp Hn. unfold impute. apply Hfin. cbn [impute_core].
+    rewrite (nth_positions (lin_at l) None l t Ht). unfold lin_at. rewrite Hgap, Hp, Hn. reflexivity.
+Qed.
+
+Lemma impute_neighbours (l : oseries) t :
+  (forall tp vp, prev_obs l t = Some (tp, vp) ->
+     (tp < t)%nat /\ nth tp l None = Some vp /\ forall u, (tp < u < t)%nat -> nth u l None = None) /\
+  (forall tn vn, next_obs l t = Some (tn, vn) ->
+     (t < tn)%nat /\ nth tn l None = Some vn /\ forall u, (t < u < tn)%nat -> nth u l None = None).
+Proof. split; [apply prev_obs_spec|apply next_obs_spec]. Qed.
+
+Lemma nonvacuous_example :
+  let p0 : panel := [[[1; 2; 3]; [4; 5]]; [[6; 7; 8; 9]; [1; 0]]] in
+  pad_apply (pad_fit None p0) (-1 # 1) p0
+    = Ok [[[1; 2; 3; -1 # 1]; [4; 5; -1 # 1; -1 # 1]]; [[6; 7; 8; 9]; [1; 0; -1 # 1; -1 # 1]]] /\
+  trunc_apply (trunc_fit None p0) None p0 = Ok [[[1; 2]; [4; 5]]; [[6; 7]; [1; 0]]] /\
+  (exists out, interp_apply 3 p0 = Ok out /\ (2 <= min_len p0)%nat) /\
+  map Qred (paa_coded 3 [1; 2; 3; 4; 5; 6; 7]) = [12 # 7; 4; 44 # 7] /\
+  split_bounds 16 3 = [(0, 6); (6, 11); (11, 16)]%nat /\
+  sliding_coded 3 [1; 2; 3] = [[1; 1; 2]; [1; 2; 3]; [2; 3; 3]] /\
+  impute ILinear [None; Some 1; None; None; Some 4; None] = 
+    [Some 1; Some 1; Some (1 + (2 - 1) / (4 - 1) * (4 - 1)); Some (1 + (3 - 1) / (4 - 1) * (4 - 1));
+     Some 4; Some 4].
+Proof.
+  cbv zeta. repeat split; try reflexivity.
+  eexists. split; [reflexivity|]. cbn. lia.
 Qed.
